@@ -85,6 +85,7 @@ PLANS = {
             ("h6-seam", 6, ["-hf", "1", "-seam", "-modes", "jumps", "-jumpmode", "all"]),
             ("h8-seam", 8, ["-hf", "2", "-seam", "-modes", "walk,jumps", "-jumpmode", "classes", "-stride", "16"]),
             ("h10-seam", 10, ["-hf", "0", "-seam", "-modes", "walk,jumps", "-jumpmode", "sample:1", "-stride", "100"]),
+            ("h18-tall", 18, ["-hf", "1", "-seam", "-modes", "tall"]),
         ],
         "thorough": [
             ("h4-real", 4, ["-hf", "0,1,2", "-modes", "walk,jumps,random", "-jumpmode", "all", "-reps", "4"]),
@@ -96,6 +97,9 @@ PLANS = {
             ("h10-seam", 10, ["-hf", "2", "-seam", "-modes", "walk,jumps", "-jumpmode", "classes", "-stride", "3"]),
             ("h12-seam", 12, ["-hf", "0", "-seam", "-modes", "walk,jumps", "-jumpmode", "classes", "-stride", "41"]),
             ("h14-seam", 14, ["-hf", "1", "-seam", "-modes", "walk"]),
+            ("h16-tall", 16, ["-hf", "0", "-seam", "-modes", "tall"]),
+            ("h18-tall", 18, ["-hf", "1", "-seam", "-modes", "tall"]),
+            ("h20-tall", 20, ["-hf", "2", "-seam", "-modes", "tall"]),
         ],
     },
     "C02": {
@@ -104,6 +108,7 @@ PLANS = {
             ("h6-real", 6, ["-hf", "0", "-modes", "random", "-reps", "3"]),
             ("h6-seam", 6, ["-hf", "1,2", "-seam", "-modes", "walk,random", "-reps", "12"]),
             ("h8-seam", 8, ["-hf", "0", "-seam", "-modes", "random", "-reps", "6"]),
+            ("h18-tall", 18, ["-hf", "2", "-seam", "-modes", "tall"]),
         ],
         "thorough": [
             ("h4-real", 4, ["-hf", "0,1,2", "-modes", "walk,random,jumps", "-jumpmode", "all", "-reps", "40"]),
@@ -112,6 +117,8 @@ PLANS = {
             ("h6-seam", 6, ["-hf", "1", "-seam", "-modes", "random", "-reps", "200"]),
             ("h8-seam", 8, ["-hf", "2", "-seam", "-modes", "walk,random", "-reps", "60"]),
             ("h10-seam", 10, ["-hf", "0", "-seam", "-modes", "random", "-reps", "10"]),
+            ("h18-tall", 18, ["-hf", "2", "-seam", "-modes", "tall"]),
+            ("h20-tall", 20, ["-hf", "0", "-seam", "-modes", "tall"]),
         ],
     },
     "C08": {
@@ -169,7 +176,7 @@ def check(pid, tier):
         hist = [x for x in evs[:first["l"]] if x.get("k") == e.get("k") or x.get("k") == e.get("from")]
         replay = write_replay(pid, "violation-seed%d-%s.json" % (seed(), first["label"]), {
             "property": pid, "what": first["what"], "trace_line": first["l"], "driver_args": first["args"], "h": first["h"],
-            "seed": seed(), "event": e, "history_of_object": hist[-40:], "all_violations": viols[:50]})
+            "seed": seed(), "tier": tier, "event": e, "history_of_object": hist[-40:], "all_violations": viols[:50]})
     cov = {
         "states": st, "transitions": trn,
         "traces_validated_against_impl": len(verdicts),
